@@ -502,7 +502,7 @@ func c03Targeted() []targetedCase {
 	dvT := decTarget{"ua.DataValue", reflect.TypeOf((*ua.DataValue)(nil))}
 	eoT := decTarget{"ua.ExtensionObject", reflect.TypeOf((*ua.ExtensionObject)(nil))}
 	marker := []byte{0x06, 0x78, 0x56, 0x34, 0x12} // Variant Int32 0x12345678
-	wrap := func(elem []byte, typ byte) []byte { // Variant array[2] of typ: elem, then for Variant arrays a marker
+	wrap := func(elem []byte, typ byte) []byte {   // Variant array[2] of typ: elem, then for Variant arrays a marker
 		b := []byte{0x80 | typ, 2, 0, 0, 0}
 		b = append(b, elem...)
 		return append(b, elem...)
@@ -629,7 +629,7 @@ func init() {
 	fw.Register("C03", fw.Spec{
 		Plan: func(tier string) fw.Plan {
 			p := fw.Plan{Batches: 8, TimeoutS: 600, MinNontrivial: 5000, Level: "exploration", MemLimitMB: 12288,
-				Rule: "the C02 corpus (mutated valid encodings, length bombs, Variant header grid, towers, random bytes) plus targeted non-canonical forms inside containers (ExtensionObjects with unknown type ids / empty bodies / every mask, Variant masks with the dims bit but not the array bit, reserved mask bits of DataValue, LocalizedText, DiagnosticInfo, NodeID, ExpandedNodeID); every input that decodes is re-encoded and decoded again; distinct = distinct (type, input) pairs, non-trivial = all (the oracle only fires on the subset that decodes; that count is in coverage.classes['c03:decoded'])",
+				Rule:        "the C02 corpus (mutated valid encodings, length bombs, Variant header grid, towers, random bytes) plus targeted non-canonical forms inside containers (ExtensionObjects with unknown type ids / empty bodies / every mask, Variant masks with the dims bit but not the array bit, reserved mask bits of DataValue, LocalizedText, DiagnosticInfo, NodeID, ExpandedNodeID); every input that decodes is re-encoded and decoded again; distinct = distinct (type, input) pairs, non-trivial = all (the oracle only fires on the subset that decodes; that count is in coverage.classes['c03:decoded'])",
 				Assumptions: []string{"equality as in C01 (nil==empty, 100ns, NaN, DataValue fields iff mask bit)"}}
 			if tier == "thorough" {
 				p.Batches = 16
